@@ -661,3 +661,34 @@ fn suggest_partitions(len_hint: Option<usize>) -> Option<usize> {
     parts = parts.clamp(hw, hw * 8);
     Some(parts)
 }
+
+/// Verification hooks: the individual planner passes, exposed unchanged.
+#[cfg(feature = "verif-hooks")]
+pub mod verif_passes {
+    use super::{
+        Node, NodeId, Pipeline, Result, backwalk_linear, drop_mid_materialized_tracked,
+        fuse_stateless_tracked, lift_gbk_then_combine_tracked, reorder_value_only_runs_tracked,
+    };
+
+    /// The unoptimised chain of `terminal`, exactly as `build_plan` obtains it.
+    pub fn backwalk(p: &Pipeline, terminal: NodeId) -> Result<Vec<Node>> {
+        let (nodes, edges) = p.snapshot();
+        backwalk_linear(nodes, &edges, terminal)
+    }
+    #[must_use]
+    pub fn fuse(chain: Vec<Node>) -> Vec<Node> {
+        fuse_stateless_tracked(chain).0
+    }
+    #[must_use]
+    pub fn reorder(chain: Vec<Node>) -> Vec<Node> {
+        reorder_value_only_runs_tracked(chain).0
+    }
+    #[must_use]
+    pub fn lift(chain: Vec<Node>) -> Vec<Node> {
+        lift_gbk_then_combine_tracked(chain).0
+    }
+    #[must_use]
+    pub fn drop_mid(chain: Vec<Node>) -> Vec<Node> {
+        drop_mid_materialized_tracked(chain).0
+    }
+}
